@@ -619,17 +619,19 @@ type Write struct {
 type WriteFault func(i int, b []byte, to net.Addr) (fail bool, short bool)
 
 type SimConn struct {
-	W       *World
-	Idx     int
-	Local   *net.UDPAddr
-	inbox   chan inPkt
-	readers atomic.Int32 // goroutines blocked in ReadFrom
-	closed  chan struct{}
-	once    sync.Once
-	mu      sync.Mutex
-	out     []*Write
-	nw      int
-	Fault   WriteFault
+	W             *World
+	Idx           int
+	Local         *net.UDPAddr
+	inbox         chan inPkt
+	readers       atomic.Int32 // goroutines blocked in ReadFrom
+	writeDeadline time.Time
+	DeadlineSets  int // calls to Set(Write)Deadline on this (shared) socket
+	closed        chan struct{}
+	once          sync.Once
+	mu            sync.Mutex
+	out           []*Write
+	nw            int
+	Fault         WriteFault
 	// Park decides whether the i-th write blocks inside WriteTo until the driver
 	// releases it (the datagram is on the wire, the call has not returned).
 	Park func(i int, b []byte, to net.Addr) bool
@@ -674,8 +676,17 @@ func (c *SimConn) WriteTo(b []byte, to net.Addr) (int, error) {
 	wr.Idx = c.nw
 	c.nw++
 	f := c.Fault
+	dl := c.writeDeadline
 	c.mu.Unlock()
 	n, err := len(b), error(nil)
+	if !dl.IsZero() && !time.Now().Before(dl) {
+		wr.Failed = true
+		c.mu.Lock()
+		c.out = append(c.out, wr)
+		c.mu.Unlock()
+		c.W.Wake()
+		return 0, os.ErrDeadlineExceeded
+	}
 	if f != nil {
 		fail, short := f(wr.Idx, b, to)
 		if fail {
@@ -720,10 +731,23 @@ func (c *SimConn) Close() error {
 	return nil
 }
 
-func (c *SimConn) LocalAddr() net.Addr                { return c.Local }
-func (c *SimConn) SetDeadline(t time.Time) error      { return nil }
-func (c *SimConn) SetReadDeadline(t time.Time) error  { return nil }
-func (c *SimConn) SetWriteDeadline(t time.Time) error { return nil }
+func (c *SimConn) LocalAddr() net.Addr { return c.Local }
+
+// Deadlines behave as on a UDP socket: once the write deadline has passed every
+// WriteTo fails until the deadline is moved or cleared. (Read deadlines are
+// recorded only: nothing in the module sets them.)
+func (c *SimConn) SetDeadline(t time.Time) error {
+	c.SetWriteDeadline(t)
+	return c.SetReadDeadline(t)
+}
+func (c *SimConn) SetReadDeadline(t time.Time) error { return nil }
+func (c *SimConn) SetWriteDeadline(t time.Time) error {
+	c.mu.Lock()
+	c.writeDeadline = t
+	c.DeadlineSets++
+	c.mu.Unlock()
+	return nil
+}
 
 // Inject hands one datagram to the server's read loop (which must be blocked in
 // ReadFrom, true at any quiescent point) and does not wait.
